@@ -24,15 +24,15 @@ CRASHY = False          # every Application run already happens in its own forke
 RUN_TIMEOUT = 600
 NO_SHRINK = {'problem', 'nx', 'steps'}
 
-PROBLEMS = {'drop': [6, 8, 10], 'cavity': [5, 6, 8], 'tg': [6, 8, 10]}
+PROBLEMS = {'drop': [6, 8, 10], 'cavity': [5, 6, 8], 'tg': [6, 8, 10], 'sod': [20, 40, 60]}
 NNPS = ['ll', 'box', 'sh', 'esh', 'ci', 'sfc', 'tree', 'comp_tree', 'strat_hash', 'strat_sfc']
 # the classes that implement get_spatially_ordered_indices; the others refuse --reorder-freq with NotImplementedError
 REORDER = {'ll', 'box', 'ci', 'sfc', 'strat_sfc', 'tree', 'comp_tree'}
-STATE_PROPS = ['x', 'y', 'z', 'u', 'v', 'w', 'rho', 'p', 'h', 'm']
+STATE_PROPS = ['x', 'y', 'z', 'u', 'v', 'w', 'rho', 'p', 'h', 'm', 'e']
 
 PROPS = {
     'C05': dict(
-        rule=('one run = one shipped problem (free-surface elliptical drop / wall-bounded cavity with two arrays / periodic Taylor-Green) '
+        rule=('one run = one shipped problem (free-surface elliptical drop / wall-bounded cavity with two arrays / periodic Taylor-Green / 1-D shock tube in a mirror domain with variable h) '
               'run through Application.run with a drawn configuration (--nnps and its knobs, --cache-nnps, --sort-gids, --reorder-freq, '
               'valid or invalid gids, and the schedule: serial, real OpenMP with 1-16 threads, or the simulated scheduler with k threads, '
               'drawn chunking / chunk-to-thread assignment / global execution order) compared with a baseline run (ll, no cache, serial, '
@@ -44,7 +44,7 @@ PROPS = {
                                    'granularity'],
                         real_not_owned=['real OpenMP runs (libgomp decides the interleaving; outcome must still be identical)'],
                         fake=[]),
-        assumptions=['R1: with --sort-gids (and valid gids when re-ordering) results are bit-identical to the baseline; R2: otherwise equal per '
+        assumptions=['R1: with --sort-gids and no re-ordering results are bit-identical to the baseline; R2: otherwise equal per '
                      'particle (matched by an identity property) within 1e-7 of the field scale after <= 8 steps; R3: the same options twice '
                      'in fresh processes are bit-identical',
                      'interference inside one loop iteration (two real threads at the same instant) is below the resolution of the simulated '
@@ -55,7 +55,7 @@ PROPS = {
 }
 PROBES = {'C05': ['sim_schedule_runs', 'real_openmp_runs', 'cache_on', 'sorted_runs', 'reorder_runs', 'reorder_on_periodic',
                   'cross_thread_cache_use', 'write_set_chunks_checked', 'bit_identical_checked', 'repeat_checked',
-                  'multi_array_problem']}
+                  'multi_array_problem', 'reorder_on_mirror']}
 
 _BASE = {}
 
@@ -234,7 +234,7 @@ def prepare(prop, tier):
 
 
 def gen(t, prop, tier):
-    problem = t.wchoice([('drop', 3), ('cavity', 4), ('tg', 4)])
+    problem = t.wchoice([('drop', 3), ('cavity', 4), ('tg', 4), ('sod', 3)])
     nx = t.choice(PROBLEMS[problem])
     steps = t.choice([2, 3, 5, 8])
     nnps = t.choice(NNPS)
@@ -352,12 +352,16 @@ def execute(sc, prop):
         probe('reorder_runs')
         if problem == 'tg':
             probe('reorder_on_periodic')
+        if problem == 'sod':
+            probe('reorder_on_mirror')
     if problem == 'cavity':
         probe('multi_array_problem')
     for name, d in res.items():
         if not d['nreal_first']:
             violate('real-particles-not-first', 'array %s: real particles are not the first num_real_particles at the end of the run' % name)
-    exact = bool(sc.get('sort_gids')) and (not sc.get('reorder') or bool(sc.get('valid_gids')))
+    # bit-identity is stated for neighbour algorithm, cache and thread settings with sorted neighbours; with re-ordering the
+    # statement only promises equality up to summation order
+    exact = bool(sc.get('sort_gids')) and not sc.get('reorder')
     diff = _compare(res, base, exact)
     if exact:
         probe('bit_identical_checked')
